@@ -1,6 +1,6 @@
 (* C09 — reference / reference_mut resolve a path to exactly its node.  Statements only. *)
 From Coq Require Import List NArith ZArith Bool.
-From JP Require Import Base Ast Eval ValueModel Spec NormPath Known Build Concrete Reference NpParse NpBuild StringLevel.
+From JP Require Import Base Ast Eval ValueModel Spec NormPath Known Build Concrete Reference RefFast NpParse NpBuild StringLevel.
 Import ListNotations.
 
 (* the full statement, at string level (false of the code for names that need escaping: D6) *)
@@ -50,3 +50,10 @@ Example C09_no_conflation :
        (JObj [([97]%N, JObj [([98]%N, JNum (NInt 2))]); ([97; 47; 98]%N, JNum (NInt 1))])
      = Some ([SName [97; 47; 98]%N], JNum (NInt 1)).
 Proof. vm_compute. repeat split. Qed.
+
+(* the correspondence run executes [m_reference_fast] / [rfc_reference_fast] (the index stays in Z and is compared with the
+   array length before it becomes a position, so that $[4294967296] can be run); they ARE the model and the specification *)
+Theorem C09_driver_runs_the_model : forall path d,
+  m_reference_fast path d = m_reference path d /\ rfc_reference_fast path d = rfc_reference path d.
+Proof. intros path d. split; [apply m_reference_fast_eq|apply rfc_reference_fast_eq]. Qed.
+Print Assumptions C09_driver_runs_the_model.
